@@ -43,6 +43,8 @@ UNIT_LAWS: Dict[str, Tuple[str, str, str]] = {
     "one-over": ("One / x", "x**-1", ""), "over-one": ("x / One", "x", ""),
     "zeroth-power": ("x**0", "One", ""), "first-power": ("x**1", "x", ""),
     "double-inverse": ("(x**-1)**-1", "x", ""),
+    "root-of-dimensionless-quotient": ("(((x * y) / y)**n).root(n)", "x", "n != 0"),
+    "root-of-power-of-quotient-by-self": ("((x / x)**n).root(n)", "One", "n != 0"),
 }
 DIM_LAWS = {k: v for k, v in UNIT_LAWS.items()}
 PREFIX_LAWS = {
